@@ -1,3 +1,3 @@
-import Cppcms.Common
-/-! Line-protocol driver for C08 (stub: model not written yet). -/
-def main : IO Unit := Cppcms.lineLoop () (fun s _ => (s, "unimplemented"))
+import Cppcms.C07.Proto
+/-! `c08_model`: same protocol as `c07_model` (one model of `mem_cache` serves C07 and C08). -/
+def main : IO Unit := Cppcms.lineLoop ({} : Cppcms.C07.Proto.DState) Cppcms.C07.Proto.stepLine
